@@ -160,9 +160,9 @@ theorem step4_spec {g : Digraph} {s0 : St} {n : Nat} (C : Ctx g s0 n) :
 
 /-- Steps 2 and 3 of the model are total on well-formed graphs and leave, for every reachable
     vertex other than the entry, `semi` = the number of its semidominator -/
-theorem steps23_total {g : Digraph} (hwf : g.WF) {f : Nat} {s : St} {n : Nat}
+theorem steps23_total {g : Digraph} (hwf : g.WF) {o : Order} (ho : o.Adm) {f : Nat} {s : St} {n : Nat}
     (h : dfs g f = some (s, n)) :
-    ∃ s1, steps23 (g.n + 1) n s none = some s1 ∧ LInv g s 1 s1 := by
+    ∃ s1, steps23 o (g.n + 1) n s none = some s1 ∧ LInv g s 1 s1 := by
   have C := ctx_of_dfs hwf h
   have hn : 1 ≤ n := by
     have := C.facts.semi_vertex g.entry (by rw [C.facts.entry_one]; omega)
@@ -174,19 +174,22 @@ theorem steps23_total {g : Digraph} (hwf : g.WF) {f : Nat} {s : St} {n : Nat}
     · have := (C.facts.semi_vertex v hv).2.1
       have := C.fuel
       omega
-  exact steps23_spec C hf n s none hn (Nat.le_refl _) (linv_init C)
+  exact steps23_spec C ho hf n s none hn (Nat.le_refl _) (linv_init C)
 
-/-- LENGAUER–TARJAN CORRECTNESS for the model of `dom_lt`: on every well-formed graph the model
-    terminates without error and returns the dominator tree -/
-theorem domLT_correct (g : Digraph) (hwf : g.WF) :
-    ∃ r, domLT g = some r ∧ r.dom g.entry = some none ∧
+theorem Order.ins_adm : Order.ins.Adm := fun _ _ _ => ⟨Iff.rfl, Iff.rfl⟩
+
+/-- LENGAUER–TARJAN CORRECTNESS for the model of `dom_lt`: on every well-formed graph, and whatever
+    the order in which the sets `pred[w]` and `bucket[pw]` are enumerated, the model terminates without
+    error and returns the dominator tree -/
+theorem domLTWith_correct (o : Order) (ho : o.Adm) (g : Digraph) (hwf : g.WF) :
+    ∃ r, domLTWith o g = some r ∧ r.dom g.entry = some none ∧
       (∀ v, v ≠ g.entry → Reach g.Edge g.entry v →
         ∃ d, r.dom v = some (some d) ∧ IDom g.Edge g.entry d v) ∧
       (∀ v, ¬ Reach g.Edge g.entry v → r.dom v = none) := by
   obtain ⟨s, n, hdfs⟩ := dfs_total g hwf
   have C := ctx_of_dfs hwf hdfs
   have T := C.tree
-  obtain ⟨s1, hst, hL⟩ := steps23_total hwf hdfs
+  obtain ⟨s1, hst, hL⟩ := steps23_total hwf ho hdfs
   have hn : 1 ≤ n := by
     have := C.facts.semi_vertex g.entry (by rw [C.facts.entry_one]; omega)
     rw [C.facts.entry_one] at this; exact this.2.1
@@ -194,7 +197,7 @@ theorem domLT_correct (g : Digraph) (hwf : g.WF) :
   refine ⟨{ dom := fun v => if v = g.entry then some none else (s2.dom v).map some,
             order := (List.range' 1 n).filterMap s.vertex,
             dfnum := s.semi, parent := s.parent, pred := s.pred },
-    by simp only [domLT, hdfs, hst, hst4], by simp, ?_, ?_⟩
+    by simp only [domLTWith, hdfs, hst, hst4], by simp, ?_, ?_⟩
   · intro v hne hr
     have hv0 : s.semi v ≠ 0 := (C.facts.semi_reach v).mpr hr
     have hv1 : s.semi v ≠ 1 := fun e =>
@@ -208,5 +211,13 @@ theorem domLT_correct (g : Digraph) (hwf : g.WF) :
       intro h0; exact hr ((C.facts.semi_reach v).mp h0)
     have hne : v ≠ g.entry := fun e => hr (e ▸ Reach.refl _)
     simp [hne, hJ.dom_none v hv0]
+
+/-- the instance the driver runs (insertion order) -/
+theorem domLT_correct (g : Digraph) (hwf : g.WF) :
+    ∃ r, domLT g = some r ∧ r.dom g.entry = some none ∧
+      (∀ v, v ≠ g.entry → Reach g.Edge g.entry v →
+        ∃ d, r.dom v = some (some d) ∧ IDom g.Edge g.entry d v) ∧
+      (∀ v, ¬ Reach g.Edge g.entry v → r.dom v = none) :=
+  domLTWith_correct Order.ins Order.ins_adm g hwf
 
 end AgVerif.DomLT
